@@ -1109,3 +1109,128 @@ def check_copy_ctors_complete(rule, db, cfgname, classes, exempt=()):
                 rule.bad(site, c.loc(), "the copy constructor does not take over: %s -- a copy behaves differently from its source" % ", ".join(miss), cfgname)
             else:
                 rule.ok(site, c.loc(), "every data member is initialised from the source", cfgname)
+
+
+def ground_energy_verdict(db):
+    """Hamiltonian::computeGroundEnergy: GroundEnergy = min over ALL blocks of the block's lowest eigenvalue.
+    Returns (verdict, text) with verdict in ok / bad / unknown.  Recognised forms: a vector filled per block (index loop or
+    std::transform over parts) followed by minCoeff(); a running minimum std::min(x, part_min) over all blocks whose start value
+    is not a constant.  Positive evidence of a defect: maxCoeff, a partial loop, a running minimum started from a literal."""
+    HH, HP, SC = "Pomerol::Hamiltonian", "Pomerol::HamiltonianPart", "Pomerol::StatesClassification::"
+    from pv.loops import covers
+    ge = db.fn(HH + "::computeGroundEnergy", nparams=0)
+    ctx = Ctx(ge, db)
+    GE = fld(HH + "::GroundEnergy")
+    parts = fld(HH + "::parts")
+    bounds = [("mcall", "std::vector::size", parts), ("ctor", "Pomerol::BlockNumber", ("mcall", "std::vector::size", parts)), ("mcall", SC + "NumberOfBlocks", fld(HH + "::S"))]
+
+    def full_loop(node):
+        for Lp in enclosing_loops(ge, node):
+            shp = loop_shape(ge, ctx, Lp)
+            if shp["kind"] == "index" and shp["start"] == ("lit", 0) and shp["rel"] == "<" and shp["bound"] in bounds and not shp.get("exits") and not shp.get("continues"):
+                return shp, True
+            if shp["kind"] in ("iter", "range") and covers(shp, parts):
+                return shp, True
+            if shp["kind"] in ("index", "iter", "range"):
+                return shp, False
+        return None, None
+
+    def is_part_min(k, shp):
+        return k[0] == "mcall" and k[1] == HP + "::getMinimumEigenvalue" and (shp is None or shp.get("var") is None or key_contains(k, lambda y: y[:2] == shp["var"][:2]))
+    asg = [j for j, n in ge.walk(ge.body) if n["k"] == "bin" and n["op"] == "=" and ctx.key(n["l"]) == GE]
+    if len(asg) != 1:
+        return "unknown", "GroundEnergy is assigned %d times in computeGroundEnergy" % len(asg)
+    A = asg[0]
+    rk = ctx.key(ge.nodes[A]["r"], inline=False)
+    if rk[0] == "mcall" and rk[1].endswith("::maxCoeff"):
+        return "bad", "the ground energy is the MAXIMUM of the blocks' lowest eigenvalues"
+
+    def running_min(target_key, node):
+        """node: X = std::min(X, part_min) (either argument order) inside a loop over all parts"""
+        r = ctx.key(ge.nodes[node]["r"], inline=False)
+        if not (r[0] == "call" and r[1].split("<")[0] in ("std::min", "min") and len(r) == 4):
+            return None
+        args = [r[2], r[3]]
+        if target_key not in args:
+            return None
+        other = [a for a in args if a != target_key]
+        shp, full = full_loop(node)
+        if shp is None:
+            return None
+        if not other or not is_part_min(ctx.key(ge.nodes[node]["r"])[2 if args[0] != target_key else 3], shp):
+            return ("unknown", "the running minimum does not take the lowest eigenvalue of the visited block")
+        if not full:
+            return ("bad", "not every block contributes its lowest eigenvalue (loop over the parts is not full-range)")
+        return ("running", None)
+    if rk[0] == "mcall" and rk[1].endswith("::minCoeff") and rk[2][0] == "var":
+        vec = rk[2]
+        for m in ctx.mut.get(vec[1], []):
+            mn = ge.nodes[m]
+            if mn["k"] == "bin" and mn["op"] == "=":
+                shp, full = full_loop(m)
+                rr = ctx.key(mn["r"])
+                if shp is None:
+                    continue
+                if not full:
+                    return "bad", "not every block contributes its lowest eigenvalue (loop over the parts is not full-range)"
+                if is_part_min(rr, shp) and key_contains(ctx.key(mn["l"], inline=False), lambda y: y[:2] == shp["var"][:2]):
+                    return "ok", "min over all blocks of the block's lowest eigenvalue (vector + minCoeff)"
+                return "bad", "the per-block entry is %s, not the lowest eigenvalue of that block" % str(rr)[:60]
+        # filled by an algorithm: std::transform(parts.begin(), parts.end(), vec.data(), functor returning part->getMinimumEigenvalue())
+        for j in ge.calls():
+            n = ge.nodes[j]
+            if strip_targs(n.get("cname") or "") == "std::transform" and len(n["args"]) == 4:
+                k = ctx.key(j, inline=False)
+                b_, e_, out_, fn_ = k[2], k[3], k[4], k[5]
+                if b_[0] == "mcall" and b_[1].split("::")[-1] in ("begin", "cbegin") and b_[2] == parts and e_[0] == "mcall" and e_[1].split("::")[-1] in ("end", "cend") and e_[2] == parts and \
+                        key_contains(out_, lambda y: y[:2] == vec[:2]):
+                    cls_ = fn_[1] if fn_[0] == "ctor" else None
+                    ops = [x for x in db.fns.values() if cls_ and strip_targs(x.name).replace("(anonymous namespace)::", "") == cls_.replace("(anonymous namespace)::", "") + "::operator()" and len(x.params) == 1 and x.body is not None and x.body >= 0]
+                    if len(ops) == 1:
+                        from pv.paths import return_cases
+                        rc = return_cases(ops[0], Ctx(ops[0], db))
+                        if rc and len(rc) == 1 and rc[0]["key"][0] == "mcall" and rc[0]["key"][1] == HP + "::getMinimumEigenvalue" and key_contains(rc[0]["key"], lambda y: y[0] == "param"):
+                            return "ok", "min over all blocks of the block's lowest eigenvalue (std::transform over parts + minCoeff)"
+        return "unknown", "the vector whose minimum is taken is filled in a form that is not analysed"
+    # running minimum, directly on GroundEnergy or on a local that is assigned to it afterwards
+    targets = []
+    if rk[0] == "var":
+        targets.append(rk)
+    rm = running_min(GE, A)
+    cand = None
+    if rm is not None:
+        cand = (GE, rm, A)
+    for t in targets:
+        for m in ctx.mut.get(t[1], []):
+            mn = ge.nodes[m]
+            if mn["k"] == "bin" and mn["op"] == "=":
+                r2 = running_min(t, m)
+                if r2 is not None:
+                    cand = (t, r2, m)
+    if cand is None:
+        return "unknown", "GroundEnergy is not obtained by a recognised minimum over the blocks"
+    tgt, (st, txt), node = cand
+    if st != "running":
+        return st, txt
+    # start value of the running minimum
+    start = None
+    if tgt == GE:
+        for c in [x for x in db.fns_named(HH + "::Hamiltonian") if x.kind == "ctor"]:
+            for i in c.d.get("inits", []):
+                if i.get("field") == "GroundEnergy" and i.get("written"):
+                    start = Ctx(c, db).key(i["e"])
+        pre = [j for j in asg if j != node]
+    else:
+        dv = ctx.decls.get(tgt[1], {})
+        if dv.get("init") is not None:
+            start = ctx.key(dv["init"])
+    if start is None:
+        return "unknown", "the start value of the running minimum was not found"
+    s0 = start
+    while isinstance(s0, tuple) and s0[0] in ("cast", "ctor") and len(s0) == 3:
+        s0 = s0[2]
+    if s0[0] == "lit" or (s0[0] == "un" and s0[1] == "-" and s0[2][0] == "lit"):
+        return "bad", "the minimum over the blocks is taken together with the constant start value %s: whenever the whole spectrum lies above it the ground energy is that constant, and exp(-beta(E - E0)) is no longer bounded by 1" % (s0[1] if s0[0] == "lit" else "-%s" % s0[2][1])
+    if is_part_min(s0, None) or key_contains(s0, lambda y: y[0] == "call" and "numeric_limits" in y[1]):
+        return "ok", "running minimum over all blocks, started from %s" % ("a block's own minimum" if is_part_min(s0, None) else "the largest representable value")
+    return "unknown", "the start value of the running minimum (%s) is not analysed" % str(s0)[:50]
